@@ -327,12 +327,12 @@ def check_C15(tier, replay=None):
 
 # ------------------------------------------------------------------------- C02
 
-MEMBER_DEVS = ("D08", "D09", "D10", "D11", "D12", "D13", "D14", "D23a", "D23c", "D30", "D32", "D35", "D37")
+MEMBER_DEVS = ("D08", "D09", "D10", "D11", "D12", "D13", "D14", "D23a", "D23c", "D30", "D32", "D35", "D37", "D39")
 
 
 def check_C02(tier, replay=None):
     R = Result("C02", tier)
-    slices = ("builtins", "positions", "nested", "attrs", "pairs", "recursive", "toplevel", "homonym") + (("positions_all", "triples") if tier == "thorough" else ())
+    slices = ("builtins", "positions", "nested", "attrs", "pairs", "recursive", "toplevel", "homonym", "form") + (("positions_all", "triples") if tier == "thorough" else ())
     runs = [("MC_C02_" + s, {"Slice": '"%s"' % s}) for s in slices]
     std_flow(R, "MC_C02", runs, "Trace_Out", {"P": '"C02"'}, MEMBER_DEVS, ["Agreement", "Emit"])
     # second observation (the property's observe_at): typed struct literals synthesised from Schema!ExpFields must
